@@ -132,7 +132,7 @@ def run_case(case):
     scn = case["scn"]
     fault = dict(case["fault"])
     with H.Sim(scn, schedule=case["schedule"], lock_mode=case["lock_mode"], file_yields=True, faults=[fault],
-               observe_results=True, observe_rows=True, max_steps=120000) as sim:
+               observe_results=True, observe_rows=True, max_steps=30000) as sim:
         w = sim.w
         sim.submit()
         res = {"violations": [], "classes": gen.scenario_classes(scn) + ["lock:" + case["lock_mode"], "fault:" + fault["kind"]],
